@@ -103,7 +103,8 @@ def key_class(site, key):
         m = re.match(r'^(H|P|C|SC):\d+', k)
         if m:
             return m.group(1)
-        for name in ('blockStore', 'stateKey', 'stateIntermediateKey', 'lastblock', 'lastreceipts'):
+        for name in ('blockStore', 'stateKey', 'stateIntermediateKey', 'lastblock', 'lastreceipts', 'stateKey.proposer',
+                     'stateIntermediateKey.proposer'):
             if k == name:
                 return name
         if k.startswith('receipts-'):
@@ -695,13 +696,32 @@ def judge(script, ki, pre, live, off):
 # ---------------------------------------------------------------------------------------------
 # (T) trace validation with TLC
 
+# the alphabet of Trace_CommitPipeline.tla; any other durable write is passed as "Other" (no effect in the spec)
+# and reported as unmodelled -- the crash enumeration still kills the node before it and judges the outcome
+KNOWN_EVENTS = {'WalTimeout', 'WriteFileAtomic.bak:signer', 'WriteFileAtomic.new:signer', 'WriteFileAtomic.rename:signer',
+                'WalStepPropose', 'WalProposal', 'WalPart', 'WalStepPrevote', 'WalPrevote', 'WalStepPrecommit', 'WalPrecommit',
+                'WalStepCommit', 'BsH', 'BsP', 'BsC', 'BsSC', 'gldb.SetSync:blockStore', 'gldb.SetSync', 'gldb.BatchWrite',
+                'gldb.SetSync:stateIntermediateKey', 'ethdb.BatchWrite', 'gldb.SetSync:lastreceipts', 'gldb.SetSync:lastblock',
+                'gldb.SetSync:stateKey', 'gldb.SetSync:stateKey.proposer', 'gldb.SetSync:stateIntermediateKey.proposer',
+                'WalHeight', 'WalStepNewHeight', 'Restart'}
+# writes whose relative order IS the mechanism named by the property (block -> intermediate state -> application
+# commit -> state; descriptor last in SaveBlock)
+ORDER_CRITICAL = {'BsH', 'BsP', 'BsC', 'BsSC', 'gldb.SetSync:blockStore', 'gldb.SetSync:stateIntermediateKey', 'ethdb.BatchWrite',
+                  'gldb.SetSync:lastreceipts', 'gldb.SetSync:lastblock', 'gldb.SetSync:stateKey'}
+
+
 def build_trace(ref, kv_heights, val_heights=()):
     out = []
+    ref.unmodelled = set()
     for i in sorted(ref.trace):
         if out:
             out.append({'ev': 'Restart', 'h': 0})
         for e in ref.trace[i]:
-            out.append({'ev': e['ev'], 'h': e.get('h', 0)})
+            if e['ev'] in KNOWN_EVENTS:
+                out.append({'ev': e['ev'], 'h': e.get('h', 0)})
+            else:
+                ref.unmodelled.add(e['ev'])
+                out.append({'ev': 'Other', 'h': 0})
     for e in out:
         e['kvh'] = sorted(kv_heights)
         e['valh'] = sorted(val_heights)
@@ -758,9 +778,9 @@ def plan(ctx, ref, quick):
                     by_site.setdefault(base_label(l), []).append(k)
                 sites = sorted(by_site)
                 rng.shuffle(sites)
-                ks = {rng.choice(by_site[s]) for s in sites[:4]}
+                ks = {rng.choice(by_site[s]) for s in sites[:3]}
             jobs += [(ki, k, 0) for k in sorted(ks)]
-        for _ in range(3):                         # a few nested crashes
+        for _ in range(2):                         # a few nested crashes
             ki = rng.randrange(nk)
             jobs.append((ki, rng.randrange(len(ref.labels[ki]) - 16, len(ref.labels[ki]) + 1), rng.randrange(1, 25)))
     else:
@@ -857,7 +877,7 @@ def run_replay(ctx, replay, base):
         ctx.sample({'replayed': t, 'accepted': ok, 'rejected_at': at})
         if not ok and at is not None and 1 <= at <= len(trace):
             e = trace[at - 1]
-            ctx.failures.append({'key': 'write-order:%s' % e['ev'], 'property': e['ev'].startswith(('Bs', 'gldb', 'ethdb')), 'kind': 'trace',
+            ctx.failures.append({'key': 'write-order:%s' % e['ev'], 'property': e['ev'] in ORDER_CRITICAL, 'kind': 'trace',
                                  'detail': 'event %d (%s) of the uncrashed durable-write log is not a step of CommitPipeline.tla; preceding: %s'
                                            % (at, e['ev'], [x['ev'] for x in trace[max(0, at - 6):at - 1]]),
                                  'action': 'trace', 'step': at, 'engine': 'c06', 'replay': {'engine': 'c06', 'args': [], 'trace': t}})
@@ -972,7 +992,7 @@ def run_full(ctx, quick, base):
     if not okT:
         if at is not None and 1 <= at <= len(trace):
             e = trace[at - 1]
-            commit_ev = e['ev'].startswith(('Bs', 'gldb', 'ethdb'))
+            commit_ev = e['ev'] in ORDER_CRITICAL
             if not ref.canonical and not commit_ev:
                 ctx.notes.append('trace validation skipped: the reference run needed more than one consensus round (event %d %s)' % (at, e['ev']))
             else:
@@ -984,6 +1004,10 @@ def run_full(ctx, quick, base):
                                      'replay': {'engine': 'c06', 'args': [], 'trace': {'mode': 'trace', 'seed': ctx.seed}}})
         else:
             ctx.inconclusive.append('trace validation did not finish: %s' % (rT.violation or rT.error or 'timeout')[:300])
+    if getattr(ref, 'unmodelled', None):
+        ctx.cov['unmodelled_writes'] = sorted(ref.unmodelled)
+        ctx.notes.append('durable writes not described by CommitPipeline.tla (treated as no-ops in trace validation; the crash '
+                         'enumeration still covers them): %s' % sorted(ref.unmodelled))
     okS, atS, rS = ts_f.result()
     ctx.cov['trace_selftest'] = 'rejected' if not okS and atS else 'ACCEPTED'
     if okS or not atS:
